@@ -131,6 +131,8 @@ type PESSpec struct {
 	HasExt2    bool         `json:"has_ext2,omitempty"`
 	Ext2       []byte       `json:"ext2,omitempty"`
 	NoOptional bool         `json:"no_optional,omitempty"` // stream id without optional header
+	// Ext2LenMode: the redundant Extension2Length field: 0 = len(Ext2), 1 = left 0, 2 = wrong
+	Ext2LenMode int `json:"ext2_len_mode,omitempty"`
 }
 
 type TrickSpec struct {
@@ -192,6 +194,12 @@ func (p PESSpec) ToAstits() *astits.PESHeader {
 		if p.HasExt2 {
 			o.HasExtension2, o.Extension2Data = true, append([]byte{}, p.Ext2...)
 			o.Extension2Length = uint8(len(p.Ext2))
+			switch p.Ext2LenMode {
+			case 1:
+				o.Extension2Length = 0
+			case 2:
+				o.Extension2Length = uint8(len(p.Ext2)+5) & 0x7f
+			}
 		}
 	}
 	o.HasOptionalFields = true
@@ -319,6 +327,7 @@ func genPESSpec(r *core.PRNG, rich bool) PESSpec {
 			p.HasExt2 = true
 			n := []int{0, 1, 5, 40, 100, 127}[r.Intn(6)]
 			p.Ext2 = r.Bytes(n)
+			p.Ext2LenMode = r.Pick(3, 1, 1)
 		}
 	}
 	return p
@@ -454,6 +463,8 @@ type PktSpec struct {
 	AF         *refts.AF `json:"af,omitempty"`
 	PayloadLen int       `json:"payload_len,omitempty"`
 	Tag        int       `json:"tag,omitempty"`
+	// Stale > 0 with HasPayload false: the Payload slice is left set (a reused Packet struct)
+	Stale int `json:"stale,omitempty"`
 }
 
 func (p *PktSpec) ToAstits() *astits.Packet {
@@ -464,6 +475,8 @@ func (p *PktSpec) ToAstits() *astits.Packet {
 	o.AdaptationField = AFToAstits(p.AF)
 	if p.HasPayload {
 		o.Payload = Payload(p.Tag, p.PayloadLen)
+	} else if p.Stale > 0 {
+		o.Payload = Payload(p.Tag, p.Stale)
 	}
 	return o
 }
